@@ -115,7 +115,7 @@ SCHEMALESS_OK = ("two_ints_octs", "long_len", "bits_chunked", "ber_indef_chunked
 OBLIGATIONS = []
 for st in STREAMS:
     n = len(st.items[0][3])
-    tiers = ("quick", "thorough") if st.id in QUICK else ("thorough",)
+    tiers = ("quick", "thorough") if st.id in QUICK or st.id == "long_len" else ("thorough",)
     OBLIGATIONS.append(Obl("oneshot:%s" % st.id, oneshot, {"sid": C(st.id), "k": I(0, n - 1), "with_spec": B, "how": I(0, 2)}, budget=120, tiers=tiers,
                            doc="every proper prefix of %s, one-shot decode, three presentations" % st.doc))
     OBLIGATIONS.append(Obl("streaming:%s" % st.id, streaming, {"sid": C(st.id), "k": I(0, n - 1), "seekable": B, "strict_close": B, "polls": I(1, 3)}, budget=120, tiers=tiers,
